@@ -273,18 +273,21 @@ Definition a_close (st : ast) : ast :=
 Definition recv_split (ev : list event) : event * list event :=
   match ev with [] => (Disc, []) | e :: tl => (e, tl) end.
 
-(* exhaust(): while self._bytes_remaining > 0 *)
-Fixpoint exhaust_loop (ev : list event) (g : net) (r p : Z) : net * Z * Z :=
+(* exhaust(): while self._bytes_remaining > 0.  Repaired code ([fixed]): a chunk larger than
+   the budget is counted only up to the budget (as read()/readall()/iteration truncate it);
+   as found, the whole chunk length was subtracted and added to the position. *)
+Fixpoint exhaust_loop (fixed : bool) (ev : list event) (g : net) (r p : Z) : net * Z * Z :=
   if r >? 0 then
     match ev with
     | [] => (g_recv g Disc [], 0, p)
     | e :: tl =>
       let g' := g_recv g e tl in
       match e with
-      | Disc => exhaust_loop tl g' 0 p
+      | Disc => exhaust_loop fixed tl g' 0 p
       | Req b more =>
-        let n := len (obody b) in
-        exhaust_loop tl g' (if more then r - n else 0) (p + n)
+        let n0 := len (obody b) in
+        let n := if fixed && (n0 >? r) then r else n0 in
+        exhaust_loop fixed tl g' (if more then r - n else 0) (p + n)
       end
     end
   else (g, r, p).
@@ -324,7 +327,7 @@ Fixpoint read_loop (fixed : bool) (size : Z) (ev : list event) (g : net) (r avai
     end
   else (g, r, avail, acc).
 
-Inductive aerr := ENotAllowed | EValueError.
+Inductive aerr := ENotAllowed | EValueError | EInvalidHeader.
 
 Inductive ares :=
 | ABytes (b : bytes) | AStop | AErr (e : aerr) | ANone | ABool (b : bool) | AInt (z : Z).
@@ -333,10 +336,13 @@ Definition set_core (st : ast) (b : bytes) (r p : Z) (g : net) : ast :=
   {| buf := b; rem := r; pos := p; closed := closed st; started := started st;
      gen := gen st; nt := g |}.
 
-Definition a_exhaust (st : ast) : ares * ast :=
+(* exhaust(): the look-ahead buffer is discarded too; the repaired code counts it in the
+   position (as found, it was dropped silently) *)
+Definition a_exhaust (fixed : bool) (st : ast) : ares * ast :=
   if closed st then (AErr EValueError, st)
   else
-    let '(g, _, p) := exhaust_loop (evs (nt st)) (nt st) (rem st) (pos st) in
+    let p0 := if fixed then pos st + len (buf st) else pos st in
+    let '(g, _, p) := exhaust_loop fixed (evs (nt st)) (nt st) (rem st) p0 in
     (ANone, set_core st [] 0 p g).
 
 Definition a_readall (st : ast) : ares * ast :=
@@ -423,7 +429,7 @@ Definition astep (fixed : bool) (op : aop) (st : ast) : ares * ast :=
   | AReadAll => a_readall st
   | ANext => a_next st
   | AIterNew => (ANone, set_gen st GFresh)
-  | AExhaust => a_exhaust st
+  | AExhaust => a_exhaust fixed st
   | AClose => (ANone, a_close st)
   | ATell => (AInt (pos st), st)
   | AEof => (ABool (a_eof st), st)
@@ -437,3 +443,95 @@ Fixpoint arun (fixed : bool) (ops : list aop) (st : ast) : list (ares * ast) :=
   end.
 
 Definition ares_bytes (r : ares) : bytes := match r with ABytes b => b | _ => [] end.
+
+(* ------------------------------------------------------------------ the request objects *)
+
+(* The Content-Length header as the request object reads it (falcon/request.py and
+   falcon/asgi/request.py: content_length): absent, present but empty, not an int(), or an
+   integer (a negative one is rejected like a non-integer). *)
+Inductive clen := CAbsent | CEmpty | CInvalid | CValue (n : Z).
+
+(* Request.content_length: None = raises HTTPInvalidHeader; Some None = returns None *)
+Definition content_length (c : clen) : option (option Z) :=
+  match c with
+  | CAbsent | CEmpty => Some None
+  | CInvalid => None
+  | CValue n => if n <? 0 then None else Some (Some n)
+  end.
+
+(* falcon.Request (WSGI).  req.stream IS env['wsgi.input'] (unbounded, shares the server's
+   cursor); req.bounded_stream is created lazily, at most once, by _get_wrapped_wsgi_input:
+   BoundedStream(env['wsgi.input'], content_length or 0), an invalid header counting as 0.
+   [q_rem] = None until the wrapper exists, then its remaining budget (its only own state:
+   the source is shared); [q_made] counts constructions. *)
+Definition wsgi_budget (c : clen) : Z :=
+  match content_length c with Some (Some n) => n | _ => 0 end.
+
+Record wreq := { q_src : src; q_cl : clen; q_rem : option Z; q_made : Z }.
+
+Inductive qop :=
+| QBounded (op : wop)                 (* req.bounded_stream.<op> *)
+| QRawRead (n : option Z)             (* req.stream.read(n) *)
+| QRawReadline (n : option Z).        (* req.stream.readline(n) *)
+
+Definition q_wst (q : wreq) : wst :=
+  {| w_rem := match q_rem q with Some r => r | None => wsgi_budget (q_cl q) end;
+     w_src := q_src q |}.
+
+Definition raw_size (n : option Z) : Z := match n with Some k => k | None => -1 end.
+
+Definition qstep (op : qop) (q : wreq) : wres * wreq :=
+  match op with
+  | QBounded o =>
+    let '(r, st') := wstep true o (q_wst q) in
+    (r, {| q_src := w_src st'; q_cl := q_cl q; q_rem := Some (w_rem st');
+           q_made := match q_rem q with Some _ => q_made q | None => q_made q + 1 end |})
+  | QRawRead n =>
+    let '(d, s') := src_read (raw_size n) (q_src q) in
+    (RBytes d, {| q_src := s'; q_cl := q_cl q; q_rem := q_rem q; q_made := q_made q |})
+  | QRawReadline n =>
+    let '(d, s') := src_readline (raw_size n) (q_src q) in
+    (RBytes d, {| q_src := s'; q_cl := q_cl q; q_rem := q_rem q; q_made := q_made q |})
+  end.
+
+Fixpoint qrun (ops : list qop) (q : wreq) : list (wres * wreq) :=
+  match ops with
+  | [] => []
+  | op :: tl => let '(r, q1) := qstep op q in (r, q1) :: qrun tl q1
+  end.
+
+Definition q_init (c : clen) (s : src) : wreq :=
+  {| q_src := s; q_cl := c; q_rem := None; q_made := 0 |}.
+
+(* falcon.asgi.Request.  __init__ keeps receive and first_event; req.stream creates, at most
+   once, BoundedStream(receive, first_event=self._first_event,
+   content_length=self.content_length) -- so an invalid Content-Length surfaces there as
+   HTTPInvalidHeader -- and req.bounded_stream is an alias of req.stream. *)
+Record areq := { rq_first : option (option bytes * bool); rq_cl : clen;
+                 rq_events : list event; rq_stream : option ast; rq_made : Z }.
+
+(* accessor used for the operation: true = req.stream, false = req.bounded_stream *)
+Definition areq_step (via_stream : bool) (op : aop) (rq : areq) : ares * areq :=
+  match rq_stream rq with
+  | Some st =>
+    let '(r, st') := astep true op st in
+    (r, {| rq_first := rq_first rq; rq_cl := rq_cl rq; rq_events := rq_events rq;
+           rq_stream := Some st'; rq_made := rq_made rq |})
+  | None =>
+    match content_length (rq_cl rq) with
+    | None => (AErr EInvalidHeader, rq)
+    | Some c =>
+      let '(r, st') := astep true op (a_init true (rq_first rq) c (rq_events rq)) in
+      (r, {| rq_first := rq_first rq; rq_cl := rq_cl rq; rq_events := rq_events rq;
+             rq_stream := Some st'; rq_made := rq_made rq + 1 |})
+    end
+  end.
+
+Fixpoint areq_run (ops : list (bool * aop)) (rq : areq) : list (ares * areq) :=
+  match ops with
+  | [] => []
+  | (via, op) :: tl => let '(r, rq1) := areq_step via op rq in (r, rq1) :: areq_run tl rq1
+  end.
+
+Definition areq_init (first : option (option bytes * bool)) (c : clen) (events : list event) : areq :=
+  {| rq_first := first; rq_cl := c; rq_events := events; rq_stream := None; rq_made := 0 |}.
